@@ -30,7 +30,35 @@ def extra_docs():
                                   K("+", "integer", attribute="w", defaults=[("d1", "1"), ("d2", "2")])], datatype="wrap"),
                       TYPE("t2", [MK("+", attribute="wm", defaults=[("x", "p"), ("X", "q")]), SEC("t1", "*", "inner")])],
                children=[K("loc", "locale"), MSEC("t1", "*", "ones"), SEC("t2", "+", "two"), MK("m0", "integer", defaults=["7", "8"])])
-    return [d]
+    # wildcard maps without any default: what a load returns for them when the text gives no key is the load's own
+    # (the application may fill it), never the schema's
+    e = SCHEMA(types=[TYPE("t3", [MK("+", "integer", attribute="bare"), ]), TYPE("t4", [K("+", attribute="barek")]),
+                      TYPE("t5", [MK("m5"), K("k5")])],
+               children=[MSEC("t3", "*", "threes"), MSEC("t4", "*", "fours"), SEC("t5", "fixed"), SEC("t3", "named")])
+    return [d, e]
+
+
+def retype(rng, rec, lines):
+    """A section that sits under a fixed name gets the type of another concrete section type (header and closer):
+    refused by a fresh schema and by a used one alike."""
+    lines = list(lines)
+    cands = [i for i, l in enumerate(lines) if getattr(l, "info", None) and l.info.get("role") in ("open", "empty")
+             and l.info.get("child") and l.info["child"]["name"] not in ("*", "+")]
+    others = sorted(n for n, t in rec["types"].items() if not t["abstract"])
+    if not cands or len(others) < 2:
+        return None
+    i = rng.choice(cands)
+    old = lines[i].info["type"]
+    new = rng.choice([n for n in others if n != old])
+    name = lines[i].info.get("name") or ""
+    ind = str(lines[i])[:len(str(lines[i])) - len(str(lines[i]).lstrip())]
+    if lines[i].info["role"] == "empty":
+        lines[i] = Line("%s<%s %s/>" % (ind, new, name), **dict(lines[i].info, type=new))
+        return lines
+    j = c08.block_end(lines, i)
+    lines[i] = Line("%s<%s %s>" % (ind, new, name), **dict(lines[i].info, type=new))
+    lines[j] = Line("%s</%s>" % (ind, new), **dict(lines[j].info, type=new))
+    return lines
 
 
 def same_real(a, b):
@@ -111,12 +139,14 @@ def run(chk):
             vocab = [Line(v, role="fault", cont="") for v in schemas.vocabulary(rec, 40)]
             for b in range(30):
                 t = textgen.Gen(rng, rec).text()
-                kind = rng.choice(["valid", "valid", "fault", "damaged", "override"])
+                kind = rng.choice(["valid", "valid", "fault", "damaged", "override", "retype"])
                 opts = []
                 if kind == "fault":
                     r = c08.inject(rng, rec, t, rng.choice(c08.KINDS))
                     if r is not None:
                         t = r[0]
+                elif kind == "retype":
+                    t = retype(rng, rec, t) or t
                 elif kind == "damaged":
                     t = textgen.damage(rng, t, vocab, 1)
                 elif kind == "override":
